@@ -23,6 +23,7 @@ import (
 	"github.com/google/badwolf/bql/lexer"
 	"github.com/google/badwolf/bql/table"
 	"github.com/google/badwolf/triple/literal"
+	"github.com/google/badwolf/triple/predicate"
 )
 
 // Evaluator interface computes the evaluation of a boolean expression.
@@ -105,6 +106,71 @@ func formatCell(c *table.Cell) (string, error) {
 	return strings.TrimSpace(c.String()), nil
 }
 
+// valueOrder orders two cells by value when both hold int64 literals, float64
+// literals, text (a text literal or an ID/TYPE string), time anchors or
+// predicates: -1, 0 or 1. Comparing the printed forms instead orders negative
+// numbers backwards, depends on the quotes around a text and on the zone an
+// anchor was created with. ok is false for every other pair of cells.
+func valueOrder(l, r *table.Cell) (int, bool) {
+	order := func(less, greater bool) int {
+		switch {
+		case less:
+			return -1
+		case greater:
+			return 1
+		}
+		return 0
+	}
+	text := func(c *table.Cell) (string, bool) {
+		if c.S != nil {
+			return *c.S, true
+		}
+		if c.L != nil && c.L.Type() == literal.Text {
+			t, err := c.L.Text()
+			return t, err == nil
+		}
+		return "", false
+	}
+	if tl, ok := text(l); ok {
+		if tr, ok := text(r); ok {
+			return order(tl < tr, tl > tr), true
+		}
+		return 0, false
+	}
+	switch {
+	case l.T != nil && r.T != nil:
+		return order(l.T.Before(*r.T), l.T.After(*r.T)), true
+	case l.P != nil && r.P != nil:
+		if l.P.UUID().String() == r.P.UUID().String() {
+			return 0, true
+		}
+		return order(l.P.String() < r.P.String(), l.P.String() > r.P.String()), true
+	case l.L != nil && r.L != nil && l.L.Type() == literal.Int64 && r.L.Type() == literal.Int64:
+		vl, _ := l.L.Int64()
+		vr, _ := r.L.Int64()
+		return order(vl < vr, vl > vr), true
+	case l.L != nil && r.L != nil && l.L.Type() == literal.Float64 && r.L.Type() == literal.Float64:
+		vl, _ := l.L.Float64()
+		vr, _ := r.L.Float64()
+		return order(vl < vr, vl > vr), true
+	}
+	return 0, false
+}
+
+// holds applies a comparison operation to the outcome of valueOrder.
+func holds(op OP, order int) (bool, error) {
+	switch op {
+	case EQ:
+		return order == 0, nil
+	case LT:
+		return order < 0, nil
+	case GT:
+		return order > 0, nil
+	default:
+		return false, fmt.Errorf("boolean evaluation requires a boolean operation; found %q instead", op)
+	}
+}
+
 // evaluationNode represents the internal representation of one expression.
 type evaluationNode struct {
 	operation OP
@@ -131,6 +197,10 @@ func (e *evaluationNode) Evaluate(r table.Row) (bool, error) {
 	leftBinding, rightBinding, err := eval()
 	if err != nil {
 		return false, err
+	}
+
+	if o, ok := valueOrder(leftBinding, rightBinding); ok {
+		return holds(e.operation, o)
 	}
 
 	// comparable string expressions for left and right tokens.
@@ -183,6 +253,10 @@ func (e *comparisonForLiteral) Evaluate(r table.Row) (bool, error) {
 
 	if leftBinding.L != nil && leftBinding.L.Type() != rightLiteral.Type() {
 		return false, nil
+	}
+
+	if o, ok := valueOrder(leftBinding, &table.Cell{L: rightLiteral}); ok {
+		return holds(e.operation, o)
 	}
 
 	// comparable string expressions for left and right tokens.
@@ -309,6 +383,11 @@ func (e *comparisonForPredicateLiteral) Evaluate(r table.Row) (bool, error) {
 
 	switch e.operation {
 	case EQ:
+		// The same predicate prints differently when its anchor was written
+		// in another zone: compare the values whenever the literal parses.
+		if rp, err := predicate.Parse(csER); err == nil {
+			return leftBinding.P.UUID().String() == rp.UUID().String(), nil
+		}
 		return csEL == csER, nil
 	default:
 		return false, fmt.Errorf(`comparisonForPredicateLiteral.Evaluate got operation %q, but it accepts only the "=" operation. For ">" and "<" think about extracting bindings with the keywords ID/AT and using them for comparisons`, e.operation)
